@@ -57,7 +57,27 @@ pub fn gen_weights(t: &mut Tape, n: usize) -> Vec<f64> {
     if n == 1 {
         return vec![1.0];
     }
-    match t.weighted(&[2, 4, 3, 3]) {
+    match t.weighted(&[4, 8, 6, 6, 2, 1]) {
+        4 => {
+            // next to a vertex: one voice carries almost everything, the others a tiny (exactly
+            // representable) share each - still a weighted average
+            let k = t.below(n);
+            let eps = 2f64.powi(-(t.urange(20, 50) as i32));
+            (0..n).map(|i| if i == k { 1.0 - (n as f64 - 1.0) * eps } else { eps }).collect()
+        }
+        5 => {
+            // one weight exactly 1 while the others cancel: (1, e, -e, 0..) is NOT the first voice alone
+            if n < 3 {
+                return vec![1.0, 0.0][..n].to_vec();
+            }
+            let e = t.dyadic(1, 64, 64);
+            let mut w = vec![0.0; n];
+            let k = t.below(n);
+            w[k] = 1.0;
+            w[(k + 1) % n] = e;
+            w[(k + 2) % n] = -e;
+            w
+        }
         3 => {
             // arbitrary (non-dyadic) weights: the last one closes the sum; accepted by the
             // library iff the sum taken in order is within f64::EPSILON of 1
@@ -107,7 +127,7 @@ impl Prop for Interpolation {
         "interpolation".into()
     }
     fn rule(&self) -> String {
-        "1..4 compatible voices: {bundled voice + its PDF-perturbed copies} or {generated voice + variants with the same metadata but different trees and PDFs}; independent dyadic weight vectors (vertices, simplex interior, negative / over-unity components) for duration, every stream and every GV; 1..6 labels; Models::duration / model_stream(i).stream / .gv vs the weighted sum of per-voice Gaussians; vertex weights (1,0,..) reproduce the first voice's waveform; identical voices reproduce the single voice. Non-trivial: >= 2 voices with pairwise different selected PDFs and non-vertex weights".into()
+        "1..4 compatible voices: {bundled voice + its PDF-perturbed copies} or {generated voice + variants with the same metadata but different trees and PDFs}; independent weight vectors (vertices, simplex interior, negative / over-unity components, non-dyadic, next to a vertex with shares of 2^-20..2^-50, one weight exactly 1 with the others cancelling) for duration, every stream and every GV; 1..6 labels; Models::duration / model_stream(i).stream / .gv vs the weighted sum of per-voice Gaussians; vertex weights (1,0,..) reproduce the first voice's waveform; identical voices reproduce the single voice. Non-trivial: >= 2 voices with pairwise different selected PDFs and non-vertex weights".into()
     }
     fn tape_len(&self, _: Tier) -> usize {
         16000
